@@ -15,6 +15,8 @@ package main
 //   output       level and scale of the bootstrapped ciphertext
 // Probes (property predicates evaluated on the real code):
 //   shallowcopy_no_shared_scratch (reflection), shallowcopy_interleaved, shallowcopy_concurrent (thorough),
+//   params_codec_roundtrip (iterated configs through MarshalBinary / JSON), mod1_poly_degree (c18_mod1.go),
+//   ties literal_default / literal_default_const / literal_default_doc (documented defaults of the optional literal fields),
 //   default_lists_covered + ties default_list/default_literal/default_source/default_announced (c18_defaults.go),
 //   mod1_step (c18_mod1.go), input_unchanged, evaluate_scale_precision,
 //   key_levels_sufficient, inadmissible_rejected, sparse_key_confined, sparse_secret_recovered, keys_sufficient, required_stable, output_level_scale,
@@ -24,11 +26,13 @@ package main
 //   grouped_split_inverse (grouped depth splits: one rescaling per group).
 
 import (
+	"encoding/json"
 	"fmt"
 	"math"
 	"math/big"
 	"math/cmplx"
 	"os"
+	"reflect"
 	"sort"
 	"strconv"
 	"strings"
@@ -66,6 +70,7 @@ func genC18(c *Ctx) {
 	c18C2SS2C(c)
 	c18Mod1Step(c)
 	c18DefaultTable(c)
+	c18LiteralDefaults(c)
 	c18GroupedPatched(c)
 	for _, cfg := range c18Configs(c) {
 		if only := os.Getenv("C18_ONLY"); only != "" && only != cfg.name {
@@ -703,6 +708,7 @@ type c18Cfg struct {
 	batch     int                                                       // size of a BootstrapMany batch of sparse ciphertexts (0 = none)
 	thorough  bool                                                      // only in the thorough tier
 	ctSlotsLo bool                                                      // also try ciphertexts with fewer slots
+	codec     string                                                    // "binary" / "json": the parameters go through Marshal/Unmarshal before anything else
 	announced float64                                                   // documented precision of a shipped default (bits), 0 = none
 }
 
@@ -782,6 +788,10 @@ func c18Configs(c *Ctx) []c18Cfg {
 		out = append(out, c18Cfg{name: "shipped_" + d.name, res: r, btp: b, ratioAdj: adj, announced: c18Announced[d.name]})
 	}
 
+	// 8a'. every Mod1Type with ALL optional fields nil (documented defaults: K 16, degree 30, 3 double angles for the cosines)
+	out = append(out, c18Cfg{name: "mod1_cosc_defaults", res: base(), btp: bootstrapping.ParametersLiteral{LogN: utils.Pointy(logN),
+		Mod1Type: mod1.CosContinuous}, ratioAdj: adj16, minPrec: 12}) // 16.8 bits measured at HEAD (degree 30)
+
 	// 8a. sine approximation with the DEFAULT double angle (3) left in the literal: documented as ignored for the sine
 	out = append(out, c18Cfg{name: "mod1_sin", res: base(), btp: bootstrapping.ParametersLiteral{LogN: utils.Pointy(logN),
 		Mod1Type: mod1.SinContinuous, Mod1Degree: utils.Pointy(127), K: utils.Pointy(12)}, ratioAdj: adj16, minPrec: 20})
@@ -858,7 +868,12 @@ func c18Configs(c *Ctx) []c18Cfg {
 		IterationsParameters: &bootstrapping.IterationsParameters{BootstrappingPrecision: []float64{25, 25}, ReservedPrimeBitSize: 28}},
 		ratioAdj: func(res ckks.Parameters, p bootstrapping.Parameters) int {
 			return utils.Min(utils.Max(16-res.LogN(), 0), 8)
-		}, minPrec: 12})
+		}, minPrec: 65}) // three bootstrappings of 25 bits: 73-74 bits measured at HEAD
+	{
+		twin := out[len(out)-1]
+		twin.name, twin.codec = "iter_reserved_bin", "binary"
+		out = append(out, twin)
+	}
 
 	// 9b. residual parameters with LogDefaultScale > 64 (two primes per level) WITHOUT IterationsParameters: the
 	// copy-and-rescale branch of Evaluate must work from the untouched input scale
@@ -869,7 +884,7 @@ func c18Configs(c *Ctx) []c18Cfg {
 	out = append(out, c18Cfg{name: "prec128_plain80", res: p80, btp: bootstrapping.ParametersLiteral{LogN: utils.Pointy(logN)},
 		ratioAdj: func(res ckks.Parameters, p bootstrapping.Parameters) int {
 			return utils.Min(utils.Max(16-res.LogN(), 0), 8)
-		}, minPrec: 12})
+		}, minPrec: 20})
 	p90 := bootstrapping.DefaultParametersSparse[0].SchemeParams
 	p90.LogN = logN
 	p90.LogQ = []int{60, 45, 45}
@@ -877,14 +892,19 @@ func c18Configs(c *Ctx) []c18Cfg {
 	out = append(out, c18Cfg{name: "prec128_plain90", res: p90, btp: bootstrapping.ParametersLiteral{LogN: utils.Pointy(logN)},
 		ratioAdj: func(res ckks.Parameters, p bootstrapping.Parameters) int {
 			return utils.Min(utils.Max(16-res.LogN(), 0), 8)
-		}, minPrec: 12})
+		}, minPrec: 20})
 
 	// 10. iterated bootstrapping without reserved prime
 	out = append(out, c18Cfg{name: "iter_plain", res: hp, btp: bootstrapping.ParametersLiteral{LogN: utils.Pointy(logN),
 		IterationsParameters: &bootstrapping.IterationsParameters{BootstrappingPrecision: []float64{25}}},
 		ratioAdj: func(res ckks.Parameters, p bootstrapping.Parameters) int {
 			return utils.Min(utils.Max(16-res.LogN(), 0), 8)
-		}, minPrec: 12})
+		}, minPrec: 42}) // two bootstrappings of 25 bits: 51-52 bits measured at HEAD
+	{
+		twin := out[len(out)-1]
+		twin.name, twin.codec = "iter_plain_json", "json"
+		out = append(out, twin)
+	}
 
 	var sel []c18Cfg
 	for _, cf := range out {
@@ -936,6 +956,36 @@ func c18Pipeline(c *Ctx, cfg c18Cfg) {
 	must(err)
 	if cfg.ratioAdj != nil {
 		p.Mod1ParametersLiteral.LogMessageRatio += cfg.ratioAdj(res, p)
+	}
+	if cfg.codec != "" {
+		// bootstrap through parameters that went through their codec: every field (IterationsParameters included) must survive
+		detail := ""
+		var dec2 bootstrapping.Parameters
+		var data []byte
+		var e error
+		if cfg.codec == "json" {
+			if data, e = json.Marshal(p); e == nil {
+				e = json.Unmarshal(data, &dec2)
+			}
+		} else {
+			if data, e = p.MarshalBinary(); e == nil {
+				e = dec2.UnmarshalBinary(data)
+			}
+		}
+		switch {
+		case e != nil:
+			detail = "codec error"
+		case !p.Equal(&dec2):
+			detail = "Parameters.Equal(decoded) is false"
+		case !reflect.DeepEqual(p.IterationsParameters, dec2.IterationsParameters):
+			detail = "IterationsParameters differ after decoding"
+		case p.EphemeralSecretWeight != dec2.EphemeralSecretWeight || p.CircuitOrder != dec2.CircuitOrder || !reflect.DeepEqual(p.Mod1ParametersLiteral, dec2.Mod1ParametersLiteral):
+			detail = "a scalar field differs after decoding"
+		}
+		c.Probe("params_codec_roundtrip", "cfg="+cfg.name+" codec="+cfg.codec, "C18-params-codec", detail)
+		if e == nil {
+			p = dec2
+		}
 	}
 	paramsN2 := p.BootstrappingParameters
 	tag := "cfg=" + cfg.name
